@@ -255,8 +255,8 @@ func workerMain(args []string) int {
 	go func() {
 		for {
 			time.Sleep(2 * time.Second)
-			if st := runStart.Load(); st != 0 && time.Now().Unix()-st > 120 {
-				fmt.Fprintf(os.Stderr, "WATCHDOG: run %d exceeds 120 s wall clock\n", runIdx.Load())
+			if st := runStart.Load(); st != 0 && time.Now().Unix()-st > 900 {
+				fmt.Fprintf(os.Stderr, "WATCHDOG: run %d exceeds 900 s wall clock\n", runIdx.Load())
 				os.Exit(3)
 			}
 		}
